@@ -57,6 +57,25 @@ def prove(ctx, claim, timeout_ms=20000, with_pc="auto", extra=()):
         # a claim that mentions fresh (axiom-defined) variables cannot be a pure identity
         if any("!" in n for n in free_vars([claim])):
             levels.remove(0)
+    if getattr(ctx, "sign_facts", False):
+        # opt-in extra level: preconditions + path condition + sign facts of the fresh atoms only (the light context has
+        # none of the large defining equations; fewer constraints, so unsat here implies unsat in the full context)
+        s = z3.Solver()
+        tmo = max(1000, timeout_ms // 3)
+        s.set("timeout", int(tmo))
+        for f in ctx.light.assertions():
+            s.add(f)
+        for f in extra:
+            s.add(f)
+        s.add(z3.Not(claim))
+        from .enc import guarded_check
+        r = guarded_check(s, int(tmo))
+        ctx.queries += 1
+        if r == z3.unsat:
+            dt = time.time() - t0
+            ctx.solver_time += dt
+            cross_check(s, "unsat")
+            return dict(status="proved", model=None, t=dt, used_pc=True, level="light")
     for k, lvl in enumerate(levels):
         final = (k == len(levels) - 1)
         s = z3.Solver()
